@@ -265,6 +265,9 @@ def run(ctx: Ctx) -> None:
     # ------------------------------------------------------------------ F: 415 for unsupported content encodings
     _content_encoding_415(ctx)
 
+    # ------------------------------------------------------------------ G: unary — the error marker exactly when the call failed
+    _unary_marker_iff_failed(ctx)
+
 
 def _content_encoding_415(ctx: Ctx) -> None:
     """415 for an unsupported Content-Encoding is part of C15's mapping; the clauses are decided by the
@@ -286,3 +289,58 @@ def _content_encoding_415(ctx: Ctx) -> None:
         o.instance = "content-encoding:" + o.instance
         ctx.obligations.append(o)
     ctx.functions_analysed |= sub.functions_analysed
+
+
+def _unary_marker_iff_failed(ctx: Ctx) -> None:
+    """_run_unary_sync returns (body, http_status); the responder turns INTERNAL_SERVER_ERROR into 200 + marker.
+    The call's outcome is the status it reports to the access log.  On every path to a return: outcome 'error'
+    <=> http_status INTERNAL_SERVER_ERROR (decided as two must-pass-through queries per assignment site)."""
+    from ..util import HTTP_UNARY
+
+    fi = ctx.fn(HTTP_UNARY)
+    cfg = cfg_of(fi.node)
+    rets = [n for n in walk_scope(fi.node) if isinstance(n, ast.Return) and isinstance(n.value, ast.Tuple) and len(n.value.elts) == 2]
+    some(rets, "tuple returns of _run_unary_sync", fi)
+    hs_names = {e.id for r in rets for e in [r.value.elts[1]] if isinstance(e, ast.Name)}  # type: ignore[union-attr]
+    emits = calls_named(fi, "_emit_access_log")
+    st_names = {c.args[7].id for c in emits if len(c.args) > 7 and isinstance(c.args[7], ast.Name)}
+    if not hs_names or not st_names:
+        raise AnalysisError("C15: cannot identify the status carriers of _run_unary_sync")
+
+    def assigns(names: set[str], pred) -> list[ast.Assign]:
+        return [n for n in walk_scope(fi.node) if isinstance(n, (ast.Assign, ast.AnnAssign)) and n.value is not None and pred(n.value)
+                and any(isinstance(t, ast.Name) and t.id in names for t in (n.targets if isinstance(n, ast.Assign) else [n.target]))]  # type: ignore[return-value]
+
+    err_sets = assigns(st_names, lambda v: isinstance(v, ast.Constant) and v.value == "error")
+    h500_sets = assigns(hs_names, lambda v: _status_name(v) == "INTERNAL_SERVER_ERROR")
+    ctx.require_count("RF-DOM", len(err_sets), 2, "failure sites (status = 'error') in _run_unary_sync")
+    ret_nodes: set[int] = set()
+    for r in rets:
+        if any(isinstance(e, ast.Name) and e.id in hs_names for e in r.value.elts):  # type: ignore[union-attr]
+            ret_nodes |= cfg.attempt(r)
+    h500_done: set[int] = set()
+    for a in h500_sets:
+        h500_done |= cfg.done(a)
+    err_done: set[int] = set()
+    for a in err_sets:
+        err_done |= cfg.done(a)
+    from ..util import enclosing as _encl
+
+    def site_name(a: ast.AST) -> str:
+        hs = _encl(cfg, a, (ast.ExceptHandler,))
+        return f"except-{txt(hs[0].type)}" if hs and hs[0].type is not None else "inline"  # type: ignore[attr-defined]
+
+    for i, a in enumerate(err_sets):
+        # from this failure site, a return is reachable without the status having been set to 500 -> missing marker,
+        # unless the 500 assignment already happened before on every path to this site
+        before = not (cfg.reach({cfg.entry}, h500_done) & cfg.attempt(a))
+        r = cfg.reach(cfg.done(a), h500_done, include_start=False)
+        ctx.check(before or not (r & ret_nodes), "RF-DOM", f"unary:failed-call-carries-marker:{site_name(a)}", fi, a,
+                  ok="every path from this failure site to the return sets http_status = INTERNAL_SERVER_ERROR (-> 200 + X-VGI-RPC-Error)",
+                  bad="a failed call (error batch written, access log says 'error') can be returned with http_status OK: the response is a plain 200 without the error marker")
+    for i, a in enumerate(h500_sets):
+        before = not (cfg.reach({cfg.entry}, err_done) & cfg.attempt(a))
+        r = cfg.reach(cfg.done(a), err_done, include_start=False)
+        ctx.check(before or not (r & ret_nodes), "RF-DOM", f"unary:marker-only-on-failed-call:{site_name(a)}", fi, a,
+                  ok="http_status is set to INTERNAL_SERVER_ERROR only where the call is recorded as failed",
+                  bad="http_status INTERNAL_SERVER_ERROR (error marker) can be returned for a call recorded as successful")
